@@ -1,5 +1,6 @@
 ---------------------------- MODULE MC_CstBuilder ----------------------------
 EXTENDS CstBuilder, Json
 \* every explored history with the expected vector, for replay into the real CstData
-Emit == PrintT("H|" \o ToJson([ops |-> ops, nodes |-> d.nodes, tc |-> d.tc, nsl |-> d.nsl, ok |-> d.status = "run"]))
+Emit == PrintT("H|" \o ToJson([ops |-> ops, nodes |-> d.nodes, tc |-> d.tc, nsl |-> d.nsl, ok |-> d.status = "run",
+                                    tree |-> CompletedTree]))
 =============================================================================
